@@ -13,7 +13,7 @@ import (
 )
 
 func c08Lists(lvl int) []string {
-	I := []string{"0", "1", "2", "10", "99999999999999999", "a", "alpha", "beta", "rc", "A", "Alpha", "a-b", "-5", "-", "x-", "0a", "00a", "x"}
+	I := []string{"0", "1", "2", "3", "10", "99999999999999999", "a", "alpha", "beta", "rc", "A", "Alpha", "a-b", "1-2", "2-3", "-5", "-", "x-", "0a", "00a", "x"}
 	var out []string
 	out = append(out, "")
 	for _, a := range I {
@@ -135,7 +135,7 @@ func init() {
 		specs = append(specs, c08Spec(n))
 	}
 	registerRef("C08", "SemVer-family ecosystems implement SemVer 2.0.0 precedence", specs,
-		"per ecosystem: cores x every pre-release identifier list of length 0..2 over an 18-identifier alphabet (digits incl. 0, multi-digit, 17 digits; alphanumerics; mixed case; hyphen-containing and hyphen-leading) plus every list of length 3..4 (thorough: 6) over {0 1 a -} (thorough: all length-3 lists over 8 identifiers) x build-metadata variants; golang additionally the three pseudo-version forms; all ordered pairs against SemVer 2.0.0 section 11 (golang: golang.org/x/mod/semver itself). Strict semver acceptance: all strings <= L over {0 1 a . - +} against the official SemVer grammar. distinct_nontrivial = pairs the reference orders strictly.",
+		"per ecosystem: cores x every pre-release identifier list of length 0..2 over a 21-identifier alphabet (digits incl. 0, multi-digit, 17 digits; alphanumerics; mixed case; hyphen-containing and hyphen-leading) plus every list of length 3..4 (thorough: 6) over {0 1 a -} (thorough: all length-3 lists over 8 identifiers) x build-metadata variants; golang additionally the three pseudo-version forms; all ordered pairs against SemVer 2.0.0 section 11 (golang: golang.org/x/mod/semver itself). Strict semver acceptance: all strings <= L over {0 1 a . - +} against the official SemVer grammar. distinct_nontrivial = pairs the reference orders strictly.",
 		[]string{"NuGet identifiers that differ only in letter case are not in the alphabet's claim (case-insensitivity not claimed) - pairs differing only by case are skipped for nuget", "numbers beyond 18 digits are outside the claim"},
 		[]string{"engine/ref/semver.go (SemVer 2.0.0 section 11 and the semver.org grammar)", "golang.org/x/mod/semver v0.22.0 linked into the checker (oracle for golang)", "node-semver 7.6.2 replay: conformance/node_semver.sh"},
 		"conformance/node_semver.sh")
